@@ -211,6 +211,26 @@ static Plan gen_c16(uint64_t seed, int64_t index, bool thorough)
     else { mode = "byte_faults"; add_byte_faults(op, rng, rng.range(1, 2), m); }
     if (rng.chance(1, 3)) op.api = rng.chance(1, 2) ? API_CONTEXT_PARSE_TEMP : API_CONTEXT_PARSE;
     if (m->g.custom_lexer && rng.chance(1, 4)) op.lex_fail_call = int64_t(rng.below(op.toks.size() + 1));
+    if (rng.chance(1, 20))
+    {
+        // a cstring_buffer literal filled with openers: the fixed-capacity stacks are (nearly) exhausted or overrun. Whatever
+        // happens then - a value, a message, the library's capacity exception - must be the same for every stream kind and
+        // verbosity (S120: a driver that picks its stack type from the STREAM type)
+        static const std::vector<std::pair<const char*, const char*>> openers = { { "G3", "x" }, { "G5", "{" }, { "G7", "{" }, { "G11", "(" }, { "G16", "x" } };
+        const auto& oc = openers[size_t(rng.below(openers.size()))];
+        std::vector<std::string> fk = keys_for({ oc.first });
+        if (!fk.empty())
+        {
+            key = rng.pick(fk);
+            OpShape s2 = sh; s2.budget = 0; s2.p_skip_ws_off = 0;
+            op = make_sentence_op(rng, key, s2);
+            op.toks.clear(); op.tail.clear(); op.faults.clear(); op.use_raw = true; op.raw.clear(); op.buffer = BUF_CSTRING; op.heap = false;
+            int N = CSTRING_SIZES[rng.below(3)];
+            int fill = N - 1 - int(rng.below(3));
+            while (int(op.raw.size()) + int(std::string(oc.second).size()) <= fill) op.raw += oc.second;
+            mode = "fixed_stack_pressure";
+        }
+    }
     return single_op_plan("C16", seed, index, mode, op);
 }
 
